@@ -51,38 +51,38 @@ func ChecksTryTransformers() []Check {
 			a := c.R.IntN(1000)
 			c.Shape("pure")
 			c.Site("try.PureSeqT")
-			c.Eq(oS(try.PureSeqT(a)), rS(c, RPure([]int{a})))
+			c.Eq(oS(Rerun(c, func() TS { return try.PureSeqT(a) }, oS)), rS(c, RPure([]int{a})))
 		}},
 		{"try.LiftSeqT", func(c *Cas) {
 			d := c.Opd()
 			c.Site("try.LiftSeqT")
-			c.Eq(oS(try.LiftSeqT(BuildTry(d, IdInt))), rS(c, RMap(RefInt(d), func(x int) []int { return []int{x} })))
+			c.Eq(oS(Rerun(c, func() TS { return try.LiftSeqT(BuildTry(d, IdInt)) }, oS)), rS(c, RMap(RefInt(d), func(x int) []int { return []int{x} })))
 		}},
 		{"try.MapSeqT", func(c *Cas) {
 			_, t, r := mkS(c)
 			f := c.F1()
 			c.Site("try.MapSeqT")
-			c.Eq(oS(try.MapSeqT(t, f.Call)), rS(c, mapS(r, func(s []int) []int { return MapInts(s, f.Call) })))
+			c.Eq(oS(Rerun(c, func() TS { return try.MapSeqT(t, f.Call) }, oS)), rS(c, mapS(r, func(s []int) []int { return MapInts(s, f.Call) })))
 		}},
 		{"try.SubFlatMapSeqT", func(c *Cas) {
 			_, t, r := mkS(c)
 			k := c.Lkl()
 			c.Site("try.SubFlatMapSeqT")
-			got := try.SubFlatMapSeqT(t, func(x int) fp.Seq[int] { return k.At(x) })
+			got := Rerun(c, func() TS { return try.SubFlatMapSeqT(t, func(x int) fp.Seq[int] { return k.At(x) }) }, oS)
 			c.Eq(oS(got), rS(c, mapS(r, func(s []int) []int { return LFlatMap(s, k.At) })))
 		}},
 		{"try.TraverseSeqT", func(c *Cas) {
 			_, t, r := mkS(c)
 			k := c.Kl()
 			c.Site("try.TraverseSeqT")
-			got := try.TraverseSeqT(t, func(x int) fp.Try[int] { return BuildTry(k.At(x), IdInt) })
+			got := Rerun(c, func() TS { return try.TraverseSeqT(t, func(x int) fp.Try[int] { return BuildTry(k.At(x), IdInt) }) }, oS)
 			c.Eq(oS(got), rS(c, RFlatMap(r, func(s []int) Ref[[]int] { return RTraverse(s, k.Ref) })))
 		}},
 		{"try.FlatMapSeqT", func(c *Cas) {
 			_, t, r := mkS(c)
 			k := c.Kl()
 			c.Site("try.FlatMapSeqT")
-			got := try.FlatMapSeqT(t, func(x int) TS { return BuildTry(k.At(x), SeqOf) })
+			got := Rerun(c, func() TS { return try.FlatMapSeqT(t, func(x int) TS { return BuildTry(k.At(x), SeqOf) }) }, oS)
 			want := RFlatMap(r, func(s []int) Ref[[]int] {
 				return RMap(RTraverse(s, func(x int) Ref[[]int] {
 					return RefOf(k.At(x), func(v int) []int { return SeqOf(v) })
@@ -100,38 +100,38 @@ func ChecksTryTransformers() []Check {
 			_, t, r := mkS(c)
 			p, _ := pred(c)
 			c.Site("try.FilterSeqT")
-			c.Eq(oS(try.FilterSeqT(t, p)), rS(c, mapS(r, func(s []int) []int { return FilterInts(s, p) })))
+			c.Eq(oS(Rerun(c, func() TS { return try.FilterSeqT(t, p) }, oS)), rS(c, mapS(r, func(s []int) []int { return FilterInts(s, p) })))
 		}},
 		{"try.FilterNotSeqT", func(c *Cas) {
 			_, t, r := mkS(c)
 			p, _ := pred(c)
 			c.Site("try.FilterNotSeqT")
-			c.Eq(oS(try.FilterNotSeqT(t, p)), rS(c, mapS(r, func(s []int) []int { return FilterInts(s, func(x int) bool { return !p(x) }) })))
+			c.Eq(oS(Rerun(c, func() TS { return try.FilterNotSeqT(t, p) }, oS)), rS(c, mapS(r, func(s []int) []int { return FilterInts(s, func(x int) bool { return !p(x) }) })))
 		}},
 		{"try.AddSeqT", func(c *Cas) {
 			_, t, r := mkS(c)
 			x := c.Ints(1)[0]
 			c.Site("try.AddSeqT")
-			c.Eq(oS(try.AddSeqT(t, x)), rS(c, mapS(r, func(s []int) []int { return append(append([]int{}, s...), x) })))
+			c.Eq(oS(Rerun(c, func() TS { return try.AddSeqT(t, x) }, oS)), rS(c, mapS(r, func(s []int) []int { return append(append([]int{}, s...), x) })))
 		}},
 		{"try.AppendSeqT", func(c *Cas) {
 			_, t, r := mkS(c)
 			x := c.Ints(1)[0]
 			c.Site("try.AppendSeqT")
-			c.Eq(oS(try.AppendSeqT(t, x)), rS(c, mapS(r, func(s []int) []int { return append(append([]int{}, s...), x) })))
+			c.Eq(oS(Rerun(c, func() TS { return try.AppendSeqT(t, x) }, oS)), rS(c, mapS(r, func(s []int) []int { return append(append([]int{}, s...), x) })))
 		}},
 		{"try.ConcatSeqT", func(c *Cas) {
 			_, t, r := mkS(c)
 			tail := c.Seq()
 			c.Site("try.ConcatSeqT")
-			c.Eq(oS(try.ConcatSeqT(t, tail)), rS(c, mapS(r, func(s []int) []int { return append(append([]int{}, s...), tail...) })))
+			c.Eq(oS(Rerun(c, func() TS { return try.ConcatSeqT(t, tail) }, oS)), rS(c, mapS(r, func(s []int) []int { return append(append([]int{}, s...), tail...) })))
 		}},
 		{"try.DropSeqT", func(c *Cas) {
 			_, t, r := mkS(c)
 			n := c.R.IntN(7)
 			c.Note("n=%d", n)
 			c.Site("try.DropSeqT")
-			c.Eq(oS(try.DropSeqT(t, n)), rS(c, mapS(r, func(s []int) []int {
+			c.Eq(oS(Rerun(c, func() TS { return try.DropSeqT(t, n) }, oS)), rS(c, mapS(r, func(s []int) []int {
 				if n >= len(s) {
 					return nil
 				}
@@ -143,7 +143,7 @@ func ChecksTryTransformers() []Check {
 			n := c.R.IntN(7)
 			c.Note("n=%d", n)
 			c.Site("try.TakeSeqT")
-			c.Eq(oS(try.TakeSeqT(t, n)), rS(c, mapS(r, func(s []int) []int {
+			c.Eq(oS(Rerun(c, func() TS { return try.TakeSeqT(t, n) }, oS)), rS(c, mapS(r, func(s []int) []int {
 				if n >= len(s) {
 					return s
 				}
@@ -188,7 +188,7 @@ func ChecksTryTransformers() []Check {
 		{"try.TailSeqT", func(c *Cas) {
 			_, t, r := mkS(c)
 			c.Site("try.TailSeqT")
-			c.Eq(oS(try.TailSeqT(t)), rS(c, mapS(r, func(s []int) []int {
+			c.Eq(oS(Rerun(c, func() TS { return try.TailSeqT(t) }, oS)), rS(c, mapS(r, func(s []int) []int {
 				if len(s) == 0 {
 					return nil
 				}
@@ -198,7 +198,7 @@ func ChecksTryTransformers() []Check {
 		{"try.InitSeqT", func(c *Cas) {
 			_, t, r := mkS(c)
 			c.Site("try.InitSeqT")
-			c.Eq(oS(try.InitSeqT(t)), rS(c, mapS(r, func(s []int) []int {
+			c.Eq(oS(Rerun(c, func() TS { return try.InitSeqT(t) }, oS)), rS(c, mapS(r, func(s []int) []int {
 				if len(s) == 0 {
 					return nil
 				}
@@ -223,7 +223,7 @@ func ChecksTryTransformers() []Check {
 		{"try.ReverseSeqT", func(c *Cas) {
 			_, t, r := mkS(c)
 			c.Site("try.ReverseSeqT")
-			c.Eq(oS(try.ReverseSeqT(t)), rS(c, mapS(r, func(s []int) []int {
+			c.Eq(oS(Rerun(c, func() TS { return try.ReverseSeqT(t) }, oS)), rS(c, mapS(r, func(s []int) []int {
 				out := make([]int, len(s))
 				for i, v := range s {
 					out[len(s)-1-i] = v
@@ -260,7 +260,7 @@ func ChecksTryTransformers() []Check {
 			g := c.Fn()
 			z := c.R.IntN(1000)
 			c.Site("try.ScanSeqT")
-			c.Eq(oS(try.ScanSeqT(t, z, g.Call2)), rS(c, mapS(r, func(s []int) []int {
+			c.Eq(oS(Rerun(c, func() TS { return try.ScanSeqT(t, z, g.Call2) }, oS)), rS(c, mapS(r, func(s []int) []int {
 				out := []int{z}
 				acc := z
 				for _, v := range s {
@@ -273,7 +273,7 @@ func ChecksTryTransformers() []Check {
 		{"try.SortSeqT", func(c *Cas) {
 			_, t, r := mkS(c)
 			c.Site("try.SortSeqT")
-			c.Eq(oS(try.SortSeqT(t, IntOrd)), rS(c, mapS(r, func(s []int) []int {
+			c.Eq(oS(Rerun(c, func() TS { return try.SortSeqT(t, IntOrd) }, oS)), rS(c, mapS(r, func(s []int) []int {
 				out := append([]int{}, s...)
 				sort.Ints(out)
 				return out
